@@ -37,11 +37,21 @@ func doLZ4Encode(data []byte, level int) ([]byte, error) {
 }
 
 func doLZ4Decode(buf []byte) ([]byte, error) {
-	dst := make([]byte, 10*len(buf))
-	n, err := lz4.UncompressBlock(buf, dst)
-	if err != nil {
-		return nil, err
+	// lz4 block的压缩比最高为255倍，先按10倍分配，空间不足则扩大后重试
+	size := 10 * len(buf)
+	maxSize := 255 * len(buf)
+	for {
+		dst := make([]byte, size)
+		n, err := lz4.UncompressBlock(buf, dst)
+		if err == nil {
+			return dst[:n], nil
+		}
+		if err != lz4.ErrInvalidSourceShortBuffer || size >= maxSize {
+			return nil, err
+		}
+		size *= 5
+		if size > maxSize {
+			size = maxSize
+		}
 	}
-	dst = dst[:n]
-	return dst, nil
 }
